@@ -346,6 +346,7 @@ func successPaths(c *Ctx, rule string, fn *ssa.Function, inline map[*ssa.Functio
 	if err != nil {
 		c.R.Undecided(rule, "paths:"+c.fname(fn), c.fname(fn), c.pos(fn.Pos()), err.Error())
 	}
+	c.notePaths(fn, len(ps))
 	var out []*an.Path
 	for _, p := range ps {
 		if p.Ret == nil || len(p.Results) == 0 {
